@@ -80,6 +80,9 @@ FIXED = [
     ("C14", "C14/ForkingTCPServer:zip:empty-reply", "9c3b2ab",
      "concurrent requests for one ZIP archive: concurrent rebuilds of the dbm.dumb index cache made shelve.open(...,'n') "
      "raise SyntaxError/dbm.error (only OSError was caught): empty reply"),
+    ("C01", "C01/outside-access:os.stat:elsewhere:object", "abf914c",
+     "gophermap entry with selector 'URL:http://...' (no leading slash): the handler stat()ed root + 'URL:...', a path "
+     "beside the document root"),
 ]
 
 KNOWN = [
